@@ -181,6 +181,12 @@ impl Opcode for CallDataCopy {
             let polling_interval = vm.watchdog().poll_every();
 
             for (count, internal_offset) in (0..size_limit).step_by(32).enumerate() {
+                #[cfg(smlxl_storage_layout_extractor_verif)]
+                crate::verif::emit(|| crate::verif::Event::LoopIter {
+                    site:  "op.calldatacopy",
+                    index: count,
+                });
+
                 // If we have been told to stop, stop and return an error
                 if count % polling_interval == 0 && vm.watchdog().should_stop() {
                     Err(Error::StoppedByWatchdog).locate(instruction_pointer)?;
@@ -337,6 +343,12 @@ impl Opcode for CodeCopy {
             let polling_interval = vm.watchdog().poll_every();
 
             for (count, internal_offset) in (0..size_limit).step_by(32).enumerate() {
+                #[cfg(smlxl_storage_layout_extractor_verif)]
+                crate::verif::emit(|| crate::verif::Event::LoopIter {
+                    site:  "op.codecopy",
+                    index: count,
+                });
+
                 // If we have been told to stop, stop and return an error
                 if count % polling_interval == 0 && vm.watchdog().should_stop() {
                     Err(Error::StoppedByWatchdog).locate(instruction_pointer)?;
@@ -506,6 +518,12 @@ impl Opcode for ExtCodeCopy {
             let polling_interval = vm.watchdog().poll_every();
 
             for (count, internal_offset) in (0..size_limit).step_by(32).enumerate() {
+                #[cfg(smlxl_storage_layout_extractor_verif)]
+                crate::verif::emit(|| crate::verif::Event::LoopIter {
+                    site:  "op.extcodecopy",
+                    index: count,
+                });
+
                 // If we have been told to stop, stop and return an error
                 if count % polling_interval == 0 && vm.watchdog().should_stop() {
                     Err(Error::StoppedByWatchdog).locate(instruction_pointer)?;
@@ -673,6 +691,12 @@ impl Opcode for ReturnDataCopy {
             let polling_interval = vm.watchdog().poll_every();
 
             for (count, internal_offset) in (0..size_limit).step_by(32).enumerate() {
+                #[cfg(smlxl_storage_layout_extractor_verif)]
+                crate::verif::emit(|| crate::verif::Event::LoopIter {
+                    site:  "op.returndatacopy",
+                    index: count,
+                });
+
                 // If we have been told to stop, stop and return an error
                 if count % polling_interval == 0 && vm.watchdog().should_stop() {
                     Err(Error::StoppedByWatchdog).locate(instruction_pointer)?;
